@@ -215,6 +215,11 @@ func c12TypeTable(p *core.Prog, r *core.Run) map[int64]string {
 			continue
 		}
 		for _, k := range codes {
+			if old, seen := table[k]; seen && old != typ {
+				// two stores for one type code with different Go types: consumers
+				// that assert one of them panic on the other
+				r.Check("C12.T4", fmt.Sprintf("decoder:one-type-per-code:%d", k), false, p.InstrPos(st), "records of type %d get RR.Data of Go type %s here and %s elsewhere", k, typ, old)
+			}
 			table[k] = typ
 		}
 	}
